@@ -433,19 +433,43 @@ def c15d(chk):
         nm = [x[1]["callee"].get("path") or "" for x in info["calls"]]
         shp = "sfs_core::array::Array::<T>::shape" in nm and not info["binops"] and not any(n.endswith(("::rev", "::reverse", "::sort")) for n in nm)
     chk.ob("C15.d", "write_array/fortran_order=false,shape=array.shape()", ok and shp, f.loc(), "HeaderDict::new(descr, false, array.shape().to_vec()) (fortran const false: %s, shape from array.shape(): %s)" % (ok, shp))
-    # elements: for v in array.iter() { write_all(&v.to_le_bytes())? }
-    it = an.calls(f, "sfs_core::array::Array::<T>::iter")
-    wa = an.calls(f, "std::io::Write::write_all")
-    tl = [(b, t) for b, t in f.calls() if re.search(r"::to_(le|be|ne)_bytes$", t["callee"].get("path") or "")]
-    ok = len(it) == 1 and len(wa) == 1 and len(tl) == 1 and callee_is(tl[0][1]["callee"], "core::f64::<impl f64>::to_le_bytes")
-    flow = False
-    if ok:
-        tgt = an.arg_pointee(f, wa[0][1], 1)
-        flow = tgt is not None and tgt[0] == an.call_dest_local(tl[0][1])
-        ok = ok and an.try_branch_of(f, wa[0][0]) is not None
-    chk.ob("C15.d", "write_array/elements=to_le_bytes-in-storage-order", ok and flow, f.loc(), "every element of array.iter() is written as f64::to_le_bytes with write_all, errors propagated")
+    # elements: every element of array.iter(), in order, encoded with to_le_bytes and written with write_all; a write error ends the function
+    import iters as IT
+    prog = chk.prog
+    its = IT.iterations(prog, f)
+    unit = [f] + prog.closures_of(f.path)
+    wa = [(g_, b, t) for g_ in unit for b, t in an.calls(g_, "std::io::Write::write_all")]
+    tl = [(g_, b, t) for g_ in unit for b, t in g_.calls() if re.search(r"::to_(le|be|ne)_bytes$", t["callee"].get("path") or "")]
+    ok = flow = False
+    why = "expected one write_all and one to_*_bytes inside one iteration over array.iter()"
+    it = None
+    if len(wa) == 1 and len(tl) == 1 and wa[0][0] is tl[0][0]:
+        g_, wb, wt = wa[0]
+        inside = [x for x in its if x.body is g_ and wb in x.blocks]
+        it = min(inside, key=lambda x: len(x.blocks)) if inside else None
+    if it is not None:
+        g_, wb, wt = wa[0]
+        chk.fns_analysed.add(g_.path)
+        ch = it.chain()
+        src = ch[-1][1]
+        over = IT.chain_names(ch) == ["iter"] and callee_is(IT.chain_get(ch, "iter")["callee"], "sfs_core::array::Array::<T>::iter")
+        enc = callee_is(tl[0][2]["callee"], "core::f64::<impl f64>::to_le_bytes") and it.elem_path(tl[0][2]["args"][0]) == ()
+        tgt = an.arg_pointee(g_, wt, 1)
+        flow = tgt is not None and tgt[0] == an.call_dest_local(tl[0][2])
+        if it.kind == "loop":
+            prop = an.try_branch_of(f, wb) is not None
+        else:
+            # try_for_each(|v| w.write_all(..)): the closure returns the write's Result, try_for_each stops at the first Err and its
+            # Result is the function's return value or is propagated with `?`
+            ret_direct = an.call_dest_local(wt) == 0 and not list(g_.switches())
+            td = an.call_dest_local(it.term)
+            prop = it.consumer == "try_for_each" and ret_direct and (td == 0 or an.try_branch_of(f, it.bb) is not None)
+        ok = over and enc and prop
+        why = "%s: over array.iter()=%s, f64::to_le_bytes of the element=%s, bytes handed to write_all=%s, write errors propagated=%s" % (it.describe(), over, enc, flow, prop)
+    chk.ob("C15.d", "write_array/elements=to_le_bytes-in-storage-order", ok and flow, f.loc(), "every element of array.iter() is written as f64::to_le_bytes with write_all, errors propagated (%s)" % why)
     hw = an.calls(f, HDR_WRITE)
-    chk.ob("C15.d", "write_array/header-before-elements", len(hw) == 1 and len(wa) == 1 and f.dominates(hw[0][0], wa[0][0]) and an.try_branch_of(f, hw[0][0]) is not None, f.loc(),
+    first = it is not None and it.parent is f and len(hw) == 1 and f.dominates(hw[0][0], it.bb) and hw[0][0] != it.bb
+    chk.ob("C15.d", "write_array/header-before-elements", first and an.try_branch_of(f, hw[0][0]) is not None, f.loc(),
            "Header::write(..)? dominates the element loop")
     ai = chk.fn("sfs_core::array::Array::<T>::iter")
     if ai is not None:
@@ -654,7 +678,7 @@ def c07a(chk):
     g = chk.fn(GET_READ_FN)
     if f is None or g is None:
         return
-    tl = [(b, t) for b, t in f.calls() if re.search(r"::to_(le|be|ne)_bytes$", t["callee"].get("path") or "")]
+    tl = [(b, t) for g_ in [f] + chk.prog.closures_of(f.path) for b, t in g_.calls() if re.search(r"::to_(le|be|ne)_bytes$", t["callee"].get("path") or "")]
     decl = {}
     for b, i, p, rv, s in f.assigns():
         if rv["k"] == "aggregate" and rv["akind"] == "adt" and rv["adt"] in (H + "Endian", H + "Type"):
@@ -939,6 +963,9 @@ def c07e(chk):
             if tgt:
                 raw = tgt[0]
         same = raw is not None and all((an.arg_pointee(r, t, 1) or (None,))[0] == raw for b, t in rte)
+        # the buffer may be handed on by value (returned from a helper as Ok(raw) and unwrapped with `?`): every local the same
+        # vector is moved into counts as the buffer
+        aliases = {l for l in range(len(r.locals)) if raw is not None and an.origin_local(r, l) == raw} | ({raw} if raw is not None else set())
         full = [t for b, t in r.calls() if callee_is(t["callee"], N.INDEX) and "RangeFull" in " ".join(t["callee"].get("args", []))]
         chk.ob("C07.e", "read::Builder::read/whole-input-then-detect", len(rte) == 2 and same and bool(det) and len(full) >= 1, r.loc(),
                "both transports read_to_end into one buffer; detection and parsing see the complete slice")
@@ -949,9 +976,9 @@ def c07e(chk):
                 for a in t["args"]:
                     l = op_local(a)
                     tgt = r.resolve_ptr(l) if l is not None else None
-                    if (tgt is not None and tgt[0] == raw) or (l is not None and r.copy_root(l) == raw):
+                    if (tgt is not None and tgt[0] in aliases) or (l is not None and r.copy_root(l) in aliases):
                         nm = callee_name(t["callee"])
-                        if callee_is(t["callee"], "std::io::Read::read_to_end"):
+                        if callee_is(t["callee"], "std::io::Read::read_to_end", "core::ops::try_trait::Try::branch"):
                             continue
                         if callee_is(t["callee"], N.INDEX) and "RangeFull" in " ".join(t["callee"].get("args", [])):
                             continue
@@ -960,7 +987,8 @@ def c07e(chk):
                         touch.append(nm)
         # and the slices handed to the readers / the detector derive from the buffer through deref / [..] / reborrows only
         ALLOWED = ("std::io::Read::read_to_end", "core::ops::deref::Deref::deref", "core::ops::index::Index::index", "std::io::stdio::Stdin::lock", "std::io::stdio::stdin",
-                   "sfs_core::input::Input::open", "core::option::Option::<T>::unwrap_or", "core::ops::try_trait::Try::branch", "alloc::vec::Vec::<T>::new")
+                   "sfs_core::input::Input::open", "core::option::Option::<T>::unwrap_or", "core::ops::try_trait::Try::branch", "alloc::vec::Vec::<T>::new",
+                   "core::ops::try_trait::FromResidual::from_residual")
         for b, t in r.calls():
             if callee_is(t["callee"], TEXT + "read_scs", "sfs_core::array::Array::<f64>::read_npy"):
                 sl, info = r.slice_locals(t["args"][0])
@@ -973,7 +1001,7 @@ def c07e(chk):
                     sl, info = c.slice_locals(t["args"][0])
                     extra = [callee_name(x[1]["callee"]) for x in info["calls"] if not callee_is(x[1]["callee"], *ALLOWED)]
                     caps = an.closure_captures(r, c.path) or []
-                    if extra or not any(cp is not None and cp[0] == raw for cp in caps):
+                    if extra or not any(cp is not None and cp[0] in aliases for cp in caps):
                         touch.append("detect sees %s (captures %s)" % (extra, caps))
         chk.ob("C07.e", "read::Builder::read/buffer-untouched-before-parsing", not touch, r.loc(),
                "the bytes read are handed to detection and to the reader as they are; other operations on the buffer: %s" % sorted(set(touch)))
@@ -1414,7 +1442,8 @@ def c18b(chk):
         if f.derived:
             continue
         for b, t in f.calls():
-            if callee_is(t["callee"], N.FROM_RESIDUAL) and P(t["dest"])[0] != 0:
+            # (the return place of a helper inlined by canon.py counts as a return place: its value is moved to the call's destination)
+            if callee_is(t["callee"], N.FROM_RESIDUAL) and P(t["dest"])[0] != 0 and P(t["dest"])[0] not in (f.raw.get("inlined_ret") or []):
                 bad.append(f.loc(b))
     chk.ob("C18.b", "try-operator/residual-is-returned", not bad, "", "every `?` error edge assigns the function's return value (%d exceptions)" % len(bad))
 
